@@ -738,3 +738,156 @@ pub fn big_nodes(r: &mut Rng, k: usize, n: usize, stranded: bool) -> Vec<NodeP> 
     }
     out
 }
+
+
+// ------------------------------------------------------------------------------------------ life-cycle histories
+
+/// A life-cycle history on ONE real graph object carried from step to step (never rebuilt from its projection):
+/// table -> compress (entry point) -> finish -> { query | fix_exts(valid) | compress_graph(censor) }* .
+/// The trace spec keeps the abstract graph in a variable and judges every step against the state it carried.
+pub fn lifecycle<K: Kmer + Send + Sync>(sink: &Sink, r: &mut Rng, inp: &GInput) {
+    let rows = match guard(|| {
+        let t = table_from_reads::<K>(&inp.reads, inp.stranded, inp.thr, inp.mode);
+        if inp.thr > 1 { prune_rows::<K>(&t, inp.stranded) } else { t }
+    }) {
+        Ok(t) => t,
+        Err(_) => return,
+    };
+    sink.emit(json!({"op":"begin","dom":"lifecycle","K":inp.k,"st":inp.stranded,"thr":inp.thr,"mode":inp.mode.name(),
+        "reads":inp.reads,"table":rows_json(&rows),"fam":inp.fam,"case":0,"panic":""}));
+    let entry = *r.pick(&["hash", "slice"]);
+    let desc = json!({"op":"lc_compress","K":inp.k,"entry":entry,"fam":inp.fam,"reads":inp.reads});
+    let case = sink.begin_case(&desc);
+    let res = guard(|| compress_rows::<K>(&rows, inp.stranded, inp.mode, entry));
+    sink.end_case();
+    let mut e = desc;
+    e["case"] = json!(case);
+    let base = match res {
+        Ok(b) => {
+            e["nodes"] = nodes_json(&project_base(&b));
+            e["panic"] = json!("");
+            sink.emit(e);
+            b
+        }
+        Err(m) => {
+            e["nodes"] = json!([]);
+            e["panic"] = json!(m);
+            sink.emit(e);
+            return;
+        }
+    };
+    let mut dbg: DebruijnGraph<K, D> = match guard(|| base.finish()) {
+        Ok(g) => g,
+        Err(_) => return,
+    };
+    let spec = Spec { mode: inp.mode };
+    let steps = r.range(2, 5);
+    for _ in 0..steps {
+        let cur = project_graph(&dbg);
+        let choice = r.below(3);
+        if choice == 0 {
+            // query the carried graph
+            let probes = probe_set(r, &cur, inp.k, 6);
+            let desc = json!({"op":"lc_query","K":inp.k,"cur":nodes_json(&cur),"fam":inp.fam,"reads":inp.reads});
+            let case = sink.begin_case(&desc);
+            let res = guard(|| {
+                let pv: Vec<Value> = probes.iter().map(|(x, d)| json!({"k": x, "dir": dir_str(*d), "ans": link_json(dbg.find_link(K::from_bytes(x), *d))})).collect();
+                let mut ev: Vec<Value> = Vec::new();
+                for i in 0..dbg.len() {
+                    for d in [Dir::Left, Dir::Right] {
+                        ev.push(json!({"n": i, "dir": dir_str(d), "same": true,
+                            "e": dbg.get_node(i).edges(d).iter().map(|x| json!([x.0, dir_str(x.1), x.2])).collect::<Vec<_>>()}));
+                    }
+                }
+                (pv, ev)
+            });
+            sink.end_case();
+            let mut e = desc;
+            e["case"] = json!(case);
+            match res {
+                Ok((pv, ev)) => {
+                    e["probes"] = json!(pv);
+                    e["edges"] = json!(ev);
+                    e["panic"] = json!("");
+                    sink.emit(e);
+                }
+                Err(m) => {
+                    e["probes"] = json!([]);
+                    e["edges"] = json!([]);
+                    e["panic"] = json!(m);
+                    sink.emit(e);
+                    return;
+                }
+            }
+        } else if choice == 1 {
+            let use_valid = r.chance(1, 2);
+            let valid: Vec<usize> = (0..cur.len()).filter(|_| r.chance(4, 5)).collect();
+            let desc = json!({"op":"lc_fixexts","K":inp.k,"cur":nodes_json(&cur),"use_valid":use_valid,"valid":valid,"fam":inp.fam,"reads":inp.reads});
+            let case = sink.begin_case(&desc);
+            let res = guard(|| {
+                if use_valid {
+                    let mut bs = bit_set::BitSet::with_capacity(cur.len());
+                    for v in &valid {
+                        bs.insert(*v);
+                    }
+                    dbg.fix_exts(Some(&bs));
+                } else {
+                    dbg.fix_exts(None);
+                }
+                project_graph(&dbg)
+            });
+            sink.end_case();
+            let mut e = desc;
+            e["case"] = json!(case);
+            match res {
+                Ok(a) => {
+                    e["after"] = nodes_json(&a);
+                    e["panic"] = json!("");
+                    sink.emit(e);
+                }
+                Err(m) => {
+                    e["after"] = json!([]);
+                    e["panic"] = json!(m);
+                    sink.emit(e);
+                    return;
+                }
+            }
+        } else {
+            let p = r.range(0, 2);
+            let cens: Vec<usize> = (0..cur.len()).filter(|_| r.chance(p, 6)).collect();
+            let desc = json!({"op":"lc_recompress","K":inp.k,"cur":nodes_json(&cur),"censor":cens,"fam":inp.fam,"reads":inp.reads});
+            let case = sink.begin_case(&desc);
+            let taken = std::mem::replace(&mut dbg, BaseGraph::new(inp.stranded).finish_serial());
+            let res = guard(|| {
+                let out = compress_graph(inp.stranded, &spec, taken, if cens.is_empty() { None } else { Some(cens.clone()) });
+                let mut dangling = 0usize;
+                for i in 0..out.len() {
+                    let n = out.get_node(i);
+                    for d in [Dir::Left, Dir::Right] {
+                        dangling += (n.exts().num_ext_dir(d) as usize) - n.edges(d).len();
+                    }
+                }
+                (out, dangling)
+            });
+            sink.end_case();
+            let mut e = desc;
+            e["case"] = json!(case);
+            match res {
+                Ok((out, dangling)) => {
+                    e["out"] = nodes_json(&project_graph(&out));
+                    e["dangling"] = json!(dangling);
+                    e["panic"] = json!("");
+                    sink.emit(e);
+                    dbg = out;
+                }
+                Err(m) => {
+                    e["out"] = json!([]);
+                    e["dangling"] = json!(0);
+                    e["panic"] = json!(m);
+                    sink.emit(e);
+                    return;
+                }
+            }
+        }
+    }
+}
